@@ -90,6 +90,12 @@ register("C19", "exploration",
  "Hypothesis round-trip / metamorphic update test and differential between the two serialisers",
  "DESIGN.md section 3 C19")
 
+register("C08", "exploration",
+ "Hypothesis-generated histories (<= 40/80 operations) of two workers on one queue table - push (plain/transactional/delayed), poll_one, ack, stale ack, reschedule, extend_lock, lock lapse, passage of time, a handler failing up to the attempt limit, check_and_move_expired, move_to_dlq, replay_dlq - are judged after every operation against a reference queue model (who may be handed what, attempts, places, replay fidelity) and, for conservation (each marker in exactly one of queue / DLQ / acknowledged), after every commit inside every operation, i.e. at every crash point of those operations.",
+ "Time is owned by the harness (deliver_at / locked_until rewritten); default limits; sequential histories - statement-level interleavings of concurrent pollers are not covered in this revision; ties on deliver_at unordered.",
+ "Hypothesis-generated operation histories against a reference queue model; commit-hook conservation invariant",
+ "DESIGN.md section 3 C08")
+
 NOT_APPLICABLE = {}
 
 def main():
